@@ -567,3 +567,219 @@ Proof.
         -- apply fsl_eqb_eq in E2. subst f. intros H. injection H as <- <-. now apply rpo_none_rev.
         -- apply optimize_rest_sl_sound; [assumption|assumption|lia].
 Qed.
+
+(* ====================================================================================
+   Part 2: slicers2segments reads, in order, exactly the F-order bytes of the sub-array
+   selected by the read slicers (any rank). *)
+Definition pos1 (s : seg) : list Z := map (fun k => fst s + k) (zseq (snd s)).
+Definition positions (l : list seg) : list Z := flat_map pos1 l.
+Definition shift (d : Z) (s : seg) : seg := (fst s + d, snd s).
+
+Lemma pos1_shift d s : pos1 (shift d s) = map (fun p => p + d) (pos1 s).
+Proof. unfold pos1, shift; cbn [fst snd]. rewrite map_map. apply map_ext; intros; lia. Qed.
+
+Lemma positions_shift d l : positions (map (shift d) l) = map (fun p => p + d) (positions l).
+Proof.
+  unfold positions. induction l as [|s l IH]; [reflexivity|].
+  cbn [map flat_map]. rewrite map_app, pos1_shift, IH. reflexivity.
+Qed.
+
+Lemma positions_app a b : positions (a ++ b) = positions a ++ positions b.
+Proof. unfold positions. apply flat_map_app. Qed.
+
+Lemma positions_flat_map (c : Z) (L : list Z) l :
+  positions (flat_map (fun i => map (shift (c * i)) l) L)
+  = flat_map (fun i => map (fun p => p + c * i) (positions l)) L.
+Proof.
+  induction L as [|i L IH]; [reflexivity|]. cbn [flat_map].
+  rewrite positions_app, positions_shift, IH. reflexivity.
+Qed.
+
+Lemma map_flat_map {A B C} (g : B -> C) (f : A -> list B) l :
+  map g (flat_map f l) = flat_map (fun x => map g (f x)) l.
+Proof. induction l as [|x l IH]; [reflexivity|]. cbn [flat_map]. now rewrite map_app, IH. Qed.
+
+Lemma flat_map_flat_map {A B C} (g : B -> list C) (f : A -> list B) l :
+  flat_map g (flat_map f l) = flat_map (fun x => flat_map g (f x)) l.
+Proof. induction l as [|x l IH]; [reflexivity|]. cbn [flat_map]. now rewrite flat_map_app, IH. Qed.
+
+Lemma flat_map_map {A B C} (f : B -> list C) (g : A -> B) l :
+  flat_map f (map g l) = flat_map (fun x => f (g x)) l.
+Proof. induction l as [|x l IH]; [reflexivity|]. cbn [map flat_map]. now rewrite IH. Qed.
+
+Lemma flat_map_singleton {A B} (f : A -> B) l : flat_map (fun x => [f x]) l = map f l.
+Proof. induction l as [|x l IH]; [reflexivity|]. cbn [flat_map map]. now rewrite IH. Qed.
+
+Lemma zseq_succ n : 0 <= n -> zseq (n + 1) = zseq n ++ [n].
+Proof.
+  intros H. unfold zseq. replace (Z.to_nat (n + 1)) with (S (Z.to_nat n)) by lia.
+  rewrite seq_S, map_app. cbn [map Nat.add]. f_equal. f_equal. lia.
+Qed.
+
+Lemma zseq_add a b : 0 <= a -> 0 <= b -> zseq (a + b) = zseq a ++ map (fun k => a + k) (zseq b).
+Proof.
+  intros Ha Hb. pattern b. apply natlike_ind; [| |exact Hb].
+  - rewrite Z.add_0_r. cbn. now rewrite app_nil_r.
+  - intros y Hy IHy. replace (a + Z.succ y) with (a + y + 1) by lia. replace (Z.succ y) with (y + 1) by lia.
+    rewrite zseq_succ by lia. rewrite IHy.
+    rewrite (zseq_succ y Hy), map_app, <- app_assoc. reflexivity.
+Qed.
+
+(* a block of l*m consecutive bytes = m consecutive blocks of l bytes *)
+Lemma block_split (o l m : Z) : 0 <= l -> 0 <= m ->
+  map (fun k => o + k) (zseq (l * m))
+  = flat_map (fun j => map (fun k => o + l * j + k) (zseq l)) (zseq m).
+Proof.
+  intros Hl Hm. pattern m. apply natlike_ind; [| |exact Hm].
+  - rewrite Z.mul_0_r. reflexivity.
+  - intros x Hx IH. replace (Z.succ x) with (x + 1) by lia.
+    rewrite zseq_succ by assumption. rewrite flat_map_app. cbn [flat_map]. rewrite app_nil_r.
+    rewrite <- IH. clear IH.
+    replace (l * (x + 1)) with (l * x + l) by lia.
+    rewrite zseq_add by nia. rewrite map_app, map_map. f_equal. apply map_ext. intros; lia.
+Qed.
+
+(* the read slicers produced by optimize_read_slicers *)
+Definition read_valid (n : Z) (c : cidx) : Prop :=
+  match c with CInt k => 0 <= k < n | CSl r => 0 < step_of r | CNew => True end.
+
+Fixpoint reads_valid (shape : list Z) (rd : list cidx) : Prop :=
+  match rd with
+  | [] => shape = []
+  | CNew :: r => reads_valid shape r
+  | c :: r => match shape with n :: sh => 0 <= n /\ read_valid n c /\ reads_valid sh r | [] => False end
+  end.
+
+Lemma py_nth_app pre n post : py_nth (pre ++ n :: post) (zlen pre) = Ok n.
+Proof.
+  unfold py_nth, zlen. rewrite app_length. cbn [length].
+  replace ((Z.of_nat (length pre) <? - Z.of_nat (length pre + S (length post))) ||
+           (Z.of_nat (length pre + S (length post)) <=? Z.of_nat (length pre))) with false by lia.
+  replace (Z.of_nat (length pre) <? 0) with false by lia.
+  rewrite Nat2Z.id. rewrite app_nth2 by lia. now rewrite Nat.sub_diag.
+Qed.
+
+Lemma fill_positive s n f : 0 <= n -> 0 < step_of s -> fill_slicer s n = Ok f ->
+  exists b, f_stop f = Some b /\ frange f = Ok (py_indices n s) /\ 0 < f_step f
+            /\ full_slicer_len f = zlen (py_indices n s).
+Proof.
+  intros Hn Hs Hf. destruct (fill_slicer_indices s n f Hn Hf) as (Hi & Hst & _).
+  pose proof (fill_slicer_wf s n f Hn Hf) as [(H1 & _ & b & Hb & _)|(H1 & _)]; [|lia].
+  exists b. split; [assumption|]. split; [|split; [lia|]].
+  - unfold frange. rewrite Hb. replace (f_step f =? 0) with false by lia. rewrite <- Hi.
+    unfold fsl_indices, fsl_triple, stop_or. now rewrite Hb.
+  - rewrite full_slicer_len_spec by lia. rewrite <- Hi. unfold fsl_indices. now rewrite zlen_range_of.
+Qed.
+
+Definition seg_inv (af : bool) (stride : Z) (S : list seg) : Prop :=
+  af = true -> exists o, S = [(o, stride)].
+
+Lemma s2s_positions : forall rd pre sh stride af S S',
+  reads_valid sh rd -> 0 <= stride -> seg_inv af stride S ->
+  s2s_loop rd (pre ++ sh) (zlen pre) stride af S = Ok S' ->
+  positions S' = flat_map (fun outer => map (fun p => p + outer) (positions S)) (offs sh rd stride).
+Proof.
+  induction rd as [|c rd IH]; intros pre sh stride af S S' Hv Hstr Hinv Hrun.
+  - cbn in Hrun. injection Hrun as <-. cbn [offs flat_map]. rewrite app_nil_r.
+    rewrite <- (map_id (positions S)) at 1. apply map_ext; intros; lia.
+  - destruct c as [k|s|].
+    + (* int *)
+      destruct sh as [|n sh]; [cbn in Hv; contradiction|]. cbn [reads_valid] in Hv. destruct Hv as (Hn & Hk & Hv).
+      cbn [s2s_loop] in Hrun. rewrite py_nth_app in Hrun. cbn [bind] in Hrun.
+      replace (pre ++ n :: sh) with ((pre ++ [n]) ++ sh) in Hrun by (rewrite <- app_assoc; reflexivity).
+      replace (zlen pre + 1) with (zlen (pre ++ [n])) in Hrun by (unfold zlen; rewrite app_length; cbn; lia).
+      apply IH in Hrun; [|assumption|nia|intros H; discriminate].
+      rewrite Hrun. cbn [offs axis_sel].
+      change (fun s0 : seg => (fst s0 + stride * k, snd s0)) with (shift (stride * k)).
+      rewrite positions_shift. rewrite flat_map_flat_map. apply flat_map_ext. intros o'.
+      cbn [map flat_map]. rewrite app_nil_r. rewrite map_map. apply map_ext. intros; lia.
+    + (* slice *)
+      destruct sh as [|n sh]; [cbn in Hv; contradiction|]. cbn [reads_valid] in Hv. destruct Hv as (Hn & Hs & Hv).
+      cbn [read_valid] in Hs.
+      cbn [s2s_loop] in Hrun. rewrite py_nth_app in Hrun. cbn [bind] in Hrun.
+      destruct (fill_slicer_ok s n ltac:(lia)) as [f Hf]. rewrite Hf in Hrun. cbn [bind] in Hrun.
+      destruct (fill_positive s n f Hn Hs Hf) as (b & Hb & Hfr & Hfst & Hlen).
+      set (idxs := py_indices n s) in *.
+      (* both branches give segments whose positions are the per-index shifted copies *)
+      assert (Hstep : exists S1,
+         (if af && (f_step f =? 1)
+          then match S with (o, l) :: rest => Ok ((o + stride * f_start f, l * full_slicer_len f) :: rest) | [] => Ok [] end
+          else idxs0 <- frange f;; Ok (flat_map (fun i => map (fun s0 : seg => (fst s0 + stride * i, snd s0)) S) idxs0)) = Ok S1
+         /\ positions S1 = flat_map (fun i => map (fun p => p + stride * i) (positions S)) idxs
+         /\ seg_inv (af && fsl_eqb f (mkF 0 (Some n) 1)) (stride * n) S1).
+      { destruct (af && (f_step f =? 1)) eqn:Em.
+        - apply andb_true_iff in Em. destruct Em as [Eaf E1]. apply Z.eqb_eq in E1.
+          destruct (Hinv Eaf) as [o HS]. subst S. eexists. split; [reflexivity|]. split.
+          + destruct (fill_slicer_indices s n f Hn Hf) as (Hi & _ & _). fold idxs in Hi.
+            assert (Hidx : idxs = map (fun j => f_start f + j * 1) (zseq (zlen idxs))).
+            { rewrite <- Hi at 1. unfold fsl_indices, fsl_triple, stop_or. rewrite Hb, E1.
+              unfold range_of, snth. rewrite <- Hi. unfold fsl_indices, fsl_triple, stop_or.
+              rewrite Hb, E1, zlen_range_of. reflexivity. }
+            rewrite Hlen. set (m := zlen idxs) in *.
+            assert (Hm : 0 <= m) by (unfold m, zlen; lia).
+            rewrite Hidx. unfold positions. cbn [flat_map]. rewrite !app_nil_r. unfold pos1. cbn [fst snd].
+            rewrite block_split by assumption.
+            rewrite flat_map_map. apply flat_map_ext. intros j. rewrite map_map.
+            apply map_ext. intros; lia.
+          + intros Hfull. apply andb_true_iff in Hfull. destruct Hfull as [_ Hfull]. apply fsl_eqb_eq in Hfull.
+            exists (o + stride * f_start f). rewrite Hlen. f_equal. f_equal.
+            destruct (fill_slicer_indices s n f Hn Hf) as (Hi & _ & _). fold idxs in Hi. rewrite <- Hi.
+            subst f. unfold fsl_indices, fsl_triple, stop_or. cbn [f_start f_stop f_step].
+            rewrite zlen_range_of. now rewrite slen_unit.
+        - rewrite Hfr. cbn [bind]. eexists. split; [reflexivity|]. split.
+          + change (fun s0 : seg => (fst s0 + stride * ?i, snd s0)) with (shift (stride * i)).
+            apply (positions_flat_map stride idxs S).
+          + intros Hfull. apply andb_true_iff in Hfull. destruct Hfull as [Eaf Hfull]. apply fsl_eqb_eq in Hfull.
+            subst f. cbn [f_step] in Em. rewrite Eaf in Em. discriminate. }
+      destruct Hstep as (S1 & HS1 & HP1 & Hinv1). rewrite HS1 in Hrun. cbn [bind] in Hrun.
+      replace (pre ++ n :: sh) with ((pre ++ [n]) ++ sh) in Hrun by (rewrite <- app_assoc; reflexivity).
+      replace (zlen pre + 1) with (zlen (pre ++ [n])) in Hrun by (unfold zlen; rewrite app_length; cbn; lia).
+      apply IH in Hrun; [|assumption|nia|assumption].
+      rewrite Hrun, HP1. cbn [offs axis_sel]. fold idxs.
+      rewrite flat_map_flat_map. apply flat_map_ext. intros o'.
+      rewrite map_flat_map, flat_map_map. apply flat_map_ext. intros i.
+      rewrite map_map. apply map_ext. intros; lia.
+    + (* new axis *)
+      cbn [reads_valid] in Hv. cbn [s2s_loop] in Hrun. cbn [offs]. now apply IH with (pre := pre) (af := af).
+Qed.
+
+Lemma pos1_off o d w : map (fun p => p + d) (pos1 (o, w)) = pos1 (o + d, w).
+Proof. unfold pos1. cbn [fst snd]. rewrite map_map. apply map_ext. intros; lia. Qed.
+
+Theorem segments_are_F_order rd shape off w segs :
+  reads_valid shape rd -> 0 <= w ->
+  slicers2segments rd shape off w = Ok segs ->
+  positions segs = flat_map (fun d => pos1 (off + d, w)) (offs shape rd w).
+Proof.
+  intros Hv Hw Hrun. unfold slicers2segments in Hrun.
+  apply (s2s_positions rd [] shape w true [(off, w)] segs Hv Hw) in Hrun.
+  - rewrite Hrun. apply flat_map_ext. intros d. unfold positions. cbn [flat_map]. rewrite app_nil_r.
+    apply pos1_off.
+  - intros _. exists off. reflexivity.
+Qed.
+
+(* and it always succeeds on valid read slicers *)
+Lemma s2s_total : forall rd pre sh stride af S,
+  reads_valid sh rd -> exists S', s2s_loop rd (pre ++ sh) (zlen pre) stride af S = Ok S'.
+Proof.
+  induction rd as [|c rd IH]; intros pre sh stride af S Hv.
+  - eexists. reflexivity.
+  - destruct c as [k|s|].
+    + destruct sh as [|n sh]; [cbn in Hv; contradiction|]. cbn [reads_valid] in Hv. destruct Hv as (Hn & Hk & Hv).
+      cbn [s2s_loop]. rewrite py_nth_app. cbn [bind].
+      replace (pre ++ n :: sh) with ((pre ++ [n]) ++ sh) by (rewrite <- app_assoc; reflexivity).
+      replace (zlen pre + 1) with (zlen (pre ++ [n])) by (unfold zlen; rewrite app_length; cbn; lia).
+      apply IH. assumption.
+    + destruct sh as [|n sh]; [cbn in Hv; contradiction|]. cbn [reads_valid] in Hv. destruct Hv as (Hn & Hs & Hv).
+      cbn [read_valid] in Hs. cbn [s2s_loop]. rewrite py_nth_app. cbn [bind].
+      destruct (fill_slicer_ok s n ltac:(lia)) as [f Hf]. rewrite Hf. cbn [bind].
+      destruct (fill_positive s n f Hn Hs Hf) as (b & Hb & Hfr & Hfst & Hlen). rewrite Hfr. cbn [bind].
+      replace (pre ++ n :: sh) with ((pre ++ [n]) ++ sh) by (rewrite <- app_assoc; reflexivity).
+      replace (zlen pre + 1) with (zlen (pre ++ [n])) by (unfold zlen; rewrite app_length; cbn; lia).
+      destruct (af && (f_step f =? 1)); [destruct S as [|[o l] rest]|]; cbn [bind]; apply IH; assumption.
+    + cbn [reads_valid] in Hv. cbn [s2s_loop]. apply IH. assumption.
+Qed.
+
+Lemma slicers2segments_total rd shape off w : reads_valid shape rd ->
+  exists segs, slicers2segments rd shape off w = Ok segs.
+Proof. intros Hv. unfold slicers2segments. apply (s2s_total rd [] shape w true _ Hv). Qed.
